@@ -44,6 +44,7 @@ class GenConfig:
         self.wide_bytes = 0.1       # probability that a drawn byte comes from the full 0..255 range
         self.defaults_always = True
         self.simple_exprs = True
+        self.tame_conditions = False   # comparisons only between a variable-like atom and a constant (no compiler-warned tautologies)
         for k, v in kw.items():
             if k == "kinds":
                 self.kinds = dict(self.kinds)
@@ -211,7 +212,9 @@ def int_expr(draw, env, depth=2, last_ok=False):
         if k == "len":
             return ("len", draw(st.sampled_from(env.bufs))[1])
         if k == "idx":
-            return ("idx", draw(st.sampled_from(env.bufs))[1], ("num", draw(st.integers(0, 2)), "dec"))
+            o = draw(st.sampled_from(env.bufs))
+            size = o[2] if o[0] == "str" else {"uint8_t": 1, "uint16_t": 2}.get(o[2], 4)
+            return ("idx", o[1], ("num", draw(st.integers(0, min(2, size - 1))), "dec"))
         return ("last",)
     op = draw(st.sampled_from(["+", "+", "-", "*", "&", "|", "^", "%", "/", "<<", ">>"]))
     l = draw(int_expr(env, depth - 1, last_ok))
@@ -228,12 +231,21 @@ def int_expr(draw, env, depth=2, last_ok=False):
 def bool_expr(draw, env, depth=2, last_ok=False):
     if depth <= 0:
         k = "cmp"
+    elif env.cfg.tame_conditions:
+        k = draw(st.sampled_from(["cmp", "cmp", "not", "boolvar"]))
     else:
         k = draw(st.sampled_from(["cmp", "cmp", "cmp", "and", "or", "not", "boolvar"]))
     if k == "boolvar" and not env.bools:
         k = "cmp"
     if k == "cmp":
         op = draw(st.sampled_from(["==", "!=", "<", ">", "<=", ">="]))
+        if env.cfg.tame_conditions:
+            cands = [("var", o[1]) for o in env.ints] + [("len", o[1]) for o in env.bufs] + [("idx", o[1], ("num", 0, "dec")) for o in env.bufs]
+            if last_ok:
+                cands.append(("last",))
+            if not cands:
+                return ("bool", draw(st.booleans()))
+            return ("bin", op, draw(st.sampled_from(cands)), ("num", draw(st.sampled_from([1, 2, 3, 7, 48, 100])), "dec"))
         return ("bin", op, draw(int_expr(env, 1, last_ok)), draw(int_expr(env, 0, last_ok)))
     if k == "boolvar":
         return ("var", draw(st.sampled_from(env.bools))[1])
